@@ -66,6 +66,7 @@ THEOREMS = [
     # compliance path in closed form (no assumption about the inverse) for the cubic system
     'C11.cubic_mul_cubicS', 'C11.cubicS_mul_cubic', 'C11.cubic_compliance_unique', 'C11.cubic_moduli',
     'C11.hex_mul_hexS', 'C11.hexS_mul_hex', 'C11.hex_compliance_unique', 'C11.hex_bulk',
+    'C11.cubic_bulk_every_style', 'C11.cubic_shear_every_style',
 ]
 PARTIAL = {
     'transform_with_cleanups': 'transform_id/comp/inv, energy and moduli invariance and system_invariant_* are proved for '
